@@ -74,7 +74,40 @@ func (self *StreamDecoder) Decode(val interface{}) (err error) {
 		var src = rt.Mem2Str(self.buf[s:e])
 		// try skip
 		var x = 0
-		if y := native.SkipOneFast(&src, &x); y < 0 {
+		if c := src[0]; c == '-' || (c >= '0' && c <= '9') {
+			// A top-level number ends at the first byte that cannot belong to a number - not at
+			// the next ',', ']' or '}' as inside a container, and not at the end of what has been
+			// buffered so far: until such a byte is seen it may continue in the next chunk.
+			for x = 1; x < len(src) && isNumberChar(src[x]); x++ {
+			}
+			if x == len(src) {
+				// nothing follows the number yet: wait for one more byte or for the end of the input
+				var rerr error
+				for rerr == nil && len(self.buf) == e {
+					var n int
+					realloc(&self.buf)
+					n, rerr = self.r.Read(self.buf[e:cap(self.buf)])
+					self.buf = self.buf[:e+n]
+				}
+				if len(self.buf) > e {
+					goto try_skip
+				}
+				if rerr != io.EOF {
+					self.setErr(rerr)
+					return rerr
+				}
+				// the input ends with this number
+				self.Decoder.Reset(string(self.buf[s:e]))
+				self.setErr(io.EOF)
+				self.scanned += int64(e)
+				self.scanp = 0
+				if err = self.Decoder.Decode(val); err != nil {
+					self.err = err
+				}
+				return err
+			}
+			e = x + s
+		} else if y := native.SkipOneFast(&src, &x); y < 0 {
 			// keep the bytes around the failure, the buffer is released when reading fails
 			var serr error = io.ErrUnexpectedEOF
 			if code := types.ParsingError(-y); code != types.ERR_EOF {
@@ -187,6 +220,10 @@ func (self *StreamDecoder) readMore() bool {
 			return false
 		}
 	}
+}
+
+func isNumberChar(c byte) bool {
+	return (c >= '0' && c <= '9') || c == '.' || c == 'e' || c == 'E' || c == '+' || c == '-'
 }
 
 func (self *StreamDecoder) setErr(err error) {
